@@ -179,7 +179,10 @@ def gen_mask(rng, size):
             lo, hi = (6, 9) if size == 'small' else (10, 16)
             n, m = rng.randint(lo, hi), rng.randint(lo, hi)
             kind = rng.choice(['circle', 'circle_off', 'hexagon', 'hexagon', 'hexseg', 'segment', 'twocircles',
-                               'weighted', 'circle_off'])
+                               'weighted', 'circle_off', 'labels'])
+        labels = kind == 'labels'      # integer segment labels (0 = outside, 1.. / 2, 3 = segment number)
+        if labels:
+            kind = rng.choice(['hexseg', 'twocircles'])
         if kind == 'full':
             a = np.ones((n, m))
         elif kind == 'circle':
@@ -194,28 +197,46 @@ def gen_mask(rng, size):
             segs = lentil.hex_segments(rings=1, seg_radius=rng.choice([2.0, 2.5] if size == 'small' else [2.5, 3.0]),
                                        seg_gap=rng.choice([0.5, 1.0]), rotate=rng.random() < 0.5, antialias=False,
                                        flatten=False, pad=rng.randint(0, 1))
-            a = np.sum(segs, axis=0) if kind == 'hexseg' else segs[rng.randrange(len(segs))]
+            if kind == 'segment':
+                a = segs[rng.randrange(len(segs))]
+            elif labels:
+                a = np.sum([(i + 1) * (np.asarray(sg) != 0) for i, sg in enumerate(segs)], axis=0)
+            else:
+                a = np.sum(segs, axis=0)
             if max(a.shape) > 16:
                 continue
         elif kind == 'twocircles':
             m = max(m, 9)
             r = rng.choice([1.5, 2.0] if size == 'small' else [2.0, 2.5])
-            a = (lentil.circle((n, m), r, shift=(rng.randint(-1, 1), -(m // 4)), antialias=False)
-                 + lentil.circle((n, m), r, shift=(rng.randint(-1, 1), m // 4), antialias=False))
+            a = ((2 if labels else 1) * lentil.circle((n, m), r, shift=(rng.randint(-1, 1), -(m // 4)), antialias=False)
+                 + (3 if labels else 1) * lentil.circle((n, m), r, shift=(rng.randint(-1, 1), m // 4), antialias=False))
         else:
             a = lentil.circle((n, m), min(n, m) / 2 - 1, antialias=True)
             a = np.where(a > 0, np.round(a * 4) / 4 + (a > 0) * 0.25, 0.0) * rng.choice([1, 2])
         a = np.asarray(a, dtype=float)
         if np.count_nonzero(a) >= 6:
             vals = [[(int(v) if float(v).is_integer() else str(Fraction(float(v)))) for v in row] for row in a]
-            return kind, vals
+            return ('labels' if labels else kind), vals
     raise RuntimeError('mask generator failed')
 
 
-def rnd_frac(rng):
+def rnd_frac(rng, small=0):
     q = rng.choice([1, 1, 2, 3, 4, 5, 7, 8, 10])
     p = rng.randint(-9, 9) or 1
-    return str(Fraction(p, q))
+    return str(Fraction(p, q * 10 ** small))
+
+
+def rnd_coeffs(rng, k):
+    """order-one rationals, or (30 %) a vector MIXING magnitudes: entries of order one next to entries of
+    order 1e-9 .. 1e-11 (nanometre-level terms next to unit terms), which must be recovered relative to
+    their own size"""
+    if rng.random() < 0.7:
+        return [rnd_frac(rng) for _ in range(k)]
+    sm = [rng.choice([0, 9, 10, 11]) for _ in range(k)]
+    if k >= 2:
+        i, j = rng.sample(range(k), 2)
+        sm[i], sm[j] = 0, rng.choice([9, 10, 11])
+    return [rnd_frac(rng, e) for e in sm]
 
 
 def gen_modes(rng, size, tier):
@@ -265,9 +286,12 @@ def generate(rng, tier):
         tiny = size == 'tiny'
         kind, mask = gen_mask(rng, size)
         modes = gen_modes(rng, size, tier)
-        op = rng.choice(['compose', 'fit', 'fit', 'remove', 'remove'])
+        op = rng.choice(['compose', 'compose', 'fit', 'fit', 'remove', 'remove'])
         c = {'op': op, 'mask_kind': kind, 'mask': mask, 'modes': modes,
-             'coeffs': [rnd_frac(rng) for _ in modes]}
+             'coeffs': rnd_coeffs(rng, len(modes))}
+        if all(isinstance(v, int) for row in mask for v in row):
+            # the mask as integer / boolean / uint8 array: "all nonzero entries are included" whatever the dtype
+            c['mask_dtype'] = rng.choice(['float', 'float', 'int', 'bool', 'uint8', 'int32'])
         if op != 'remove':
             c['nrm'] = rng.random() < 0.5
         if rng.random() < 0.4:
@@ -275,8 +299,8 @@ def generate(rng, tier):
             c['crd'] = {'dr': str(Fraction(rng.randint(-4, 4), 4)), 'dc': str(Fraction(rng.randint(-4, 4), 4)),
                         'radius': str(Fraction(rng.randint(9, 12), 16) * max(n, m)),
                         'rot': str(Fraction(rng.randint(-8, 8), 8))}
-        if rng.random() < 0.15:
-            c['scale'] = rng.choice(['1/1000000000', '1/1000', '250'])
+        if rng.random() < 0.3:      # the unit of the coefficients: nanometres / picometres in metres, microns, ...
+            c['scale'] = rng.choice(['1/1000000000', '1/1000000000', '1/1000000000000', '1/1000000', '1/1000', '250'])
         if op != 'compose':
             n, m = len(mask), len(mask[0])
             if rng.random() < 0.6:     # content in modes that are not fitted / removed
@@ -309,7 +333,7 @@ def classify(c):
     crd = 'crd' if c.get('crd') else 'default'
     k = len(c['modes'])
     kb = '1' if k == 1 else '2-4' if k <= 4 else '5-9' if k <= 9 else '10-15'
-    return (f"{c['op']}/{c.get('mask_kind', '?')}/{crd}/k={kb}" + ('/error' if c.get('expect_error') else '')
+    return (f"{c['op']}/{c.get('mask_kind', '?')}:{c.get('mask_dtype', 'float')}/{crd}/k={kb}" + ('/error' if c.get('expect_error') else '')
             + ('/oracle-only' if not c.get('_corpus') and model_cost(c) > MODEL_BUDGET_S[_tier[0]] else ''))
 
 
@@ -398,6 +422,7 @@ def run_impl(c):
             opd = lentil.zernike_compose(mask, p['w'], nrm, rho, theta)
             res = {'arr': np.asarray(opd, dtype=float)}
             try:    # the round trips of the property, on the implementation alone
+                res['hom'] = np.asarray(lentil.zernike_compose(mask, [x * HOM for x in p['w']], nrm, rho, theta), dtype=float)
                 res['fit'] = np.asarray(lentil.zernike_fit(opd, mask, modes, nrm, rho, theta), dtype=float)
                 res['removed'] = np.asarray(lentil.zernike_remove(opd, mask, modes, rho=rho, theta=theta), dtype=float)
             except Exception as e:
@@ -405,14 +430,15 @@ def run_impl(c):
             return res
         y = p['y']
         y0 = y.copy()
+        s = float(np.max(np.abs(y))) if y.size and np.any(y) else 1.0
         if c['op'] == 'fit':
             cf = np.asarray(lentil.zernike_fit(y, mask, modes, nrm, rho, theta), dtype=float)
             res = {'coeffs': cf}
             if not c.get('opd_shape'):
-                y2 = np.fliplr(y) * 0.5 + 1.0
+                y2 = np.fliplr(y) * 0.5 + s
                 res['fit_y2'] = np.asarray(lentil.zernike_fit(y2, mask, modes, nrm, rho, theta), dtype=float)
                 res['fit_comb'] = np.asarray(lentil.zernike_fit(3.0 * y + y2, mask, modes, nrm, rho, theta), dtype=float)
-                junk = y + (mask == 0) * 7.25 * (float(np.max(np.abs(y))) or 1.0)
+                junk = y + (mask == 0) * 7.25 * s
                 res['fit_junk'] = np.asarray(lentil.zernike_fit(junk, mask, modes, nrm, rho, theta), dtype=float)
             return res
         if c['op'] == 'remove':
@@ -428,7 +454,12 @@ def run_impl(c):
         return {'err': 'ValueError' if isinstance(e, ValueError) else type(e).__name__}
 
 
+HOM = 1e-9          # compose(HOM * c) must be HOM * compose(c)
+TOL_SUM = 1e-12     # a k-term float sum against the exact sum, relative to sum_j |c_j| max|Z_j| (k <= 15: ~4e-15)
+
+
 def close(a, b, scale, what, tol=TOL):
+    """max |a - b| <= tol * scale; scale is always the magnitude of the EXPECTED data (no absolute floor)"""
     a = np.asarray(a, dtype=float)
     b = np.asarray(b, dtype=float)
     if a.shape != b.shape:
@@ -444,10 +475,34 @@ def close(a, b, scale, what, tol=TOL):
     return None
 
 
+def close_each(got, want, cond, what):
+    """every coefficient relative to its OWN size: |got_i - want_i| <= 1e-6 |want_i| + 1e-13 max(10, cond) max|want|
+    (the second term is the float floor of a least-squares solve with condition number cond)"""
+    got = np.asarray(got, dtype=float)
+    want = np.asarray(want, dtype=float)
+    if got.shape != want.shape:
+        return f'{what}: shapes differ: {got.shape} vs {want.shape}'
+    if want.size == 0:
+        return None
+    if not np.all(np.isfinite(got)):
+        return f'{what}: non-finite values'
+    lim = 1e-6 * np.abs(want) + 1e-13 * max(10.0, cond) * float(np.max(np.abs(want)))
+    bad = np.abs(got - want) > lim
+    if np.any(bad):
+        i = int(np.argmax(np.abs(got - want) / np.where(lim > 0, lim, 1e-300)))
+        return f'{what}: coefficient {i}: got {got[i]!r}, expected {want[i]!r} (allowed deviation {lim[i]:.3g})'
+    return None
+
+
 def magnitude(c, p):
     if c['op'] == 'compose':
         return max([abs(x) for x in p['w']] + [1e-300])
     return max(float(np.max(np.abs(p['y']))) if p['y'].size else 0.0, 1e-300)
+
+
+def sum_scale(w, B):
+    """sum_j |w_j| max|B_j|: the magnitude against which a linear combination of the rows of B is rounded"""
+    return max(float(sum(abs(x) * float(np.max(np.abs(b))) for x, b in zip(w, B))), 1e-300)
 
 
 def compare(c, impl, model):
@@ -456,7 +511,7 @@ def compare(c, impl, model):
     if 'err' in impl:
         return None if impl['err'] == model['err'] else f'error kinds differ: impl {impl["err"]} model {model["err"]}'
     p = prep(c)
-    # the modelling assumption "zernike(mask, j) = bool(mask) * zernike(ones, j)" on this very case
+    # the modelling assumption "zernike(mask, j) = bool(mask) * zernike(ones, j)" on this very case, through zernike_basis
     good = [j for j in c['modes'] if j >= 1]
     nrm = True if c['op'] == 'remove' else p['nrm']
     B = masked_basis(c, p, good, nrm).reshape(len(good), *p['mask'].shape)
@@ -467,40 +522,69 @@ def compare(c, impl, model):
     if c['op'] == 'fit':
         sc = max(s, max([abs(x) for x in model['coeffs']] + [0.0]))
         return close(impl['coeffs'], model['coeffs'], sc, 'zernike_fit vs model coefficients')
+    if c['op'] == 'compose':
+        w = p['w']
+        U = [np.where(p['mask'] != 0, mode_samples(p, j + 1, nrm), 0.0) for j in range(len(w))]
+        return close(impl['arr'], model['arr'], sum_scale(w, U), 'zernike_compose vs model', TOL_SUM)
     sc = max(s, float(np.max(np.abs(np.asarray(model['arr'])))) if len(model['arr']) else 0.0)
-    return close(impl['arr'], model['arr'], sc, f'zernike_{c["op"]} vs model')
+    return close(impl['arr'], model['arr'], sc, 'zernike_remove vs model')
 
 
 # ------------------------------------------------------------------ direct oracle (implementation + numpy only)
+def pure(c):
+    """the OPD of a fit / remove case consists of the requested modes only"""
+    return (not c.get('noise') and not any(fr(e) != 0 for e in (c.get('extra') or []))
+            and len(set(c['modes'])) == len(c['modes']))
+
+
 def oracle(c, impl):
     if c.get('expect_error') or c.get('opd_shape'):
         return None          # the property does not speak about malformed calls; the tie compares the error kinds
     if 'err' in impl:
         return f'zernike_{c["op"]} (or zernike_compose preparing its input) raised {impl["err"]} on a well-formed call'
+    lentil = C.import_lentil()
     p = prep(c)
     mask = p['mask']
     inside = mask != 0
     modes = list(c['modes'])
     s = magnitude(c, p)
+    want = coeff_vals(c)
+    nrm = True if c['op'] == 'remove' else p['nrm']
+    B = stacked_modes(c, p, modes, nrm)              # float64 stack of zernike(mask, j): the reference basis
+    cond = float(np.linalg.cond(B)) if B.size else 1.0
+    bn = float(np.max(np.abs(B))) or 1.0
+    cs = sum_scale(want, B)                          # expected magnitude of sum_i c_i Z_{modes_i}
     if c['op'] == 'compose':
         w = p['w']
-        coeffs = [float(fr(x)) * float(fr(c.get('scale', 1))) for x in c['coeffs']]
         opd = np.asarray(impl['arr'])
         if np.any(opd[~inside] != 0):
             return 'composed OPD is not zero outside the mask'
+        Z = [np.asarray(lentil.zernike(mask, j + 1, nrm, p['rho'], p['theta']), dtype=float) for j in range(len(w))]
+        ref = np.zeros(mask.shape)
+        for x, z in zip(w, Z):
+            ref = ref + x * z
+        ws = sum_scale(w, Z)
+        m = close(opd, ref, ws, f'compose({w}) is not sum_j c_j Z_j', TOL_SUM)
+        if m:
+            return m
         if 'roundtrip_err' in impl:
-            return f'fit/remove of a composed OPD raised {impl["roundtrip_err"]}'
-        if not c.get('extra') and len(set(modes)) == len(modes):
-            m = close(impl['fit'], coeffs, max(abs(x) for x in coeffs), f'fit(compose(c), modes={modes}) != c')
+            return f'compose(k c) / fit / remove of a composed OPD raised {impl["roundtrip_err"]}'
+        m = close(impl['hom'], HOM * opd, HOM * ws, f'compose is not homogeneous: compose({HOM} * c) != {HOM} * compose(c)', TOL_SUM)
+        if m:
+            return m
+        if pure(c):
+            m = close_each(impl['fit'], want, cond, f'fit(compose(c), modes={modes}) != c')
             if m:
                 return m
-            m = close(impl['removed'], np.zeros_like(opd), s * max(1.0, float(np.max(np.abs(opd))) / s if s else 1.0),
-                      f'remove(compose(c, modes), modes={modes}) != 0')
+            m = close(impl['removed'], np.zeros_like(opd), cs, f'remove(compose(c, modes), modes={modes}) != 0')
             if m:
                 return m
         return None
-    B = masked_basis(c, p, modes, True if c['op'] == 'remove' else p['nrm'])
-    bn = float(np.max(np.abs(B))) or 1.0
+    # zernike_basis (the route of fit and remove) must deliver exactly these modes
+    Bapi = masked_basis(c, p, modes, nrm)
+    if Bapi.shape != B.shape or not np.array_equal(np.asarray(Bapi, dtype=float), B):
+        return (f'zernike_basis(mask[{mask.dtype}], {modes}) is not the stack of zernike(mask, j): dtype {Bapi.dtype}, '
+                f'max difference {float(np.max(np.abs(np.asarray(Bapi, dtype=float) - B))) if Bapi.shape == B.shape else "shape"}')
     y = p['y']
     if c['op'] == 'fit':
         cf = np.asarray(impl['coeffs'])
@@ -510,28 +594,38 @@ def oracle(c, impl):
         if float(np.max(np.abs(ne))) > lim:
             return (f'zernike_fit does not return the least-squares solution: normal equations residual '
                     f'{float(np.max(np.abs(ne))):.3g} > {lim:.3g}')
+        if pure(c) and c.get('ynrm', True) == nrm:
+            m = close_each(cf, want, cond, f'fit(compose(c), modes={modes}) != c')
+            if m:
+                return m
         sc = max(s, float(np.max(np.abs(cf))))
-        m = close(impl['fit_comb'], 3.0 * cf + np.asarray(impl['fit_y2']), 4 * sc + 2, 'fit is not linear: fit(3y + y2) != 3 fit(y) + fit(y2)')
+        f2 = np.asarray(impl['fit_y2'])
+        m = close(impl['fit_comb'], 3.0 * cf + f2, 4 * sc + float(np.max(np.abs(f2))),
+                  'fit is not linear: fit(3y + y2) != 3 fit(y) + fit(y2)')
         if m:
             return m
         return close(impl['fit_junk'], cf, sc, 'fit depends on OPD values outside the mask')
     if c['op'] == 'remove':
         r = np.asarray(impl['arr'])
-        cs = max(s, float(np.max(np.abs(impl['fit_y']))))
+        fs = max(s, float(np.max(np.abs(impl['fit_y']))))
         if impl.get('input_changed'):
             return 'zernike_remove modified its input'
         if r.shape != y.shape:
             return f'residual shape {r.shape} != opd shape {y.shape}'
         if not np.array_equal(r[~inside], y[~inside]):
             return 'zernike_remove changed the OPD outside the mask'
-        m = close(impl['fit_res'], np.zeros(len(modes)), cs, f'fit(remove(y, modes={modes})) != 0 on the removed modes')
+        m = close(impl['fit_res'], np.zeros(len(modes)), fs, f'fit(remove(y, modes={modes})) != 0 on the removed modes')
         if m:
             return m
         m = close(impl['again'], r, s, 'remove is not idempotent')
         if m:
             return m
         comp = np.asarray(impl['fit_y']) @ B
-        return close((y - r).ravel(), comp, s * max(1.0, bn), 'removed component is not the least-squares component in the requested modes')
+        m = close((y - r).ravel(), comp, s * max(1.0, bn), 'removed component is not the least-squares component in the requested modes')
+        if m:
+            return m
+        if pure(c):      # an OPD made only of the removed modes (either normalisation: same span)
+            return close(r, np.zeros_like(r), cs, f'remove(compose(c, modes), modes={modes}) != 0')
     return None
 
 
